@@ -205,6 +205,8 @@ func (env *SpecEnv) ident(name string) SVal {
 	if strings.HasPrefix(name, "ghost_") {
 		g := "#" + name[6:]
 		if g == "#verr" {
+			// ghost invariant: a recorded visitor failure carries a non-nil error
+			vc.assume(implies(vc.get(env.state(), "#vfail"), not(eq(vc.get(env.state(), "#verr#typ"), "0"))))
 			return SVal{T: types.Universe.Lookup("error").Type(), C: []Term{vc.get(env.state(), "#verr#typ"), vc.get(env.state(), "#verr#val")}}
 		}
 		srt, ok := ghostSorts[g]
@@ -530,6 +532,23 @@ func (env *SpecEnv) place(e ast.Expr) *Place {
 	return nil
 }
 
+func (env *SpecEnv) tryPlace(e ast.Expr) (pl *Place, ok bool) {
+	defer func() {
+		if r := recover(); r != nil {
+			if _, isSpec := r.(specErr); isSpec {
+				ok = false
+				return
+			}
+			if _, isUnsup := r.(unsupported); isUnsup {
+				ok = false
+				return
+			}
+			panic(r)
+		}
+	}()
+	return env.place(e), true
+}
+
 func (env *SpecEnv) tryExpr(e ast.Expr) (v SVal, ok bool) {
 	defer func() {
 		if r := recover(); r != nil {
@@ -557,6 +576,16 @@ func (env *SpecEnv) selector(x *ast.SelectorExpr) SVal {
 					return env.object(obj)
 				}
 			}
+		}
+	}
+	// addressable selector chains (p.a.b.c) are read through their place
+	if pl, ok := env.tryPlace(x); ok {
+		if _, isArr := pl.Cur.Underlying().(*types.Array); isArr {
+			v := vc.ptrVal(pl)
+			return SVal{T: v.T, C: v.C, Pl: v.Pl}
+		}
+		if !hasEmbeddedArray(pl.Cur) {
+			return env.loaded(vc.load(pl, env.state()))
 		}
 	}
 	bv := env.expr(x.X)
